@@ -15,7 +15,9 @@ package common
 //@   props C20 C16 C03 C04 C06 C08 C14
 //@   ensures nodup(r0)
 //@   ensures forall e: T :: in(e, r0) <==> in(e, target)
+//@   ensures [size] len(r0) <= len(target) && (len(target) > 0 ==> len(r0) > 0)
 //@   loop 0 invariant forall e: T :: has(s, e) <==> (exists k :: 0 <= k && k < $i && target[k] == e)
+//@   loop 0 invariant [size] len(s) <= $i && ($i > 0 ==> len(s) > 0)
 //@   loop 1 invariant len(r) == $n && (forall k :: 0 <= k && k < $n ==> r[k] == $key(k))
 //@ end
 
